@@ -70,8 +70,25 @@ impl Check for C03 {
         cfg.max_size = if valid { MaxSz::Default } else { MaxSz::Limit(*rng.pick(&[64usize, 1000, 70_000, 1 << 20])) };
         cfg.capacity = io::gen_capacity(&mut rng, gi.bytes.len());
         cfg.eof_end = !rng.chance(1, 6);
-        let script = io::gen_rscript(&mut rng, gi.bytes.len(), &[]);
-        ReadCase { spec, input: Arc::new(gi.bytes), cfg, script, driver: Driver::UntilEnd { extra: 0 }, class: gi.class }
+        let mut script = io::gen_rscript(&mut rng, gi.bytes.len(), &[]);
+        let input = Arc::new(gi.bytes);
+        let mut driver = Driver::UntilEnd { extra: 0 };
+        if !cfg.eof_end && rng.chance(2, 3) {
+            // a source that reports a temporary end of file and delivers more afterwards: mostly at tag
+            // boundaries (found by an unbuffered slice run), sometimes anywhere (the parse then ends in an
+            // end-of-file error, and the items before it must still mirror the bytes)
+            driver = Driver::Streaming { extra: 0 };
+            let unb = IterCfg { buffered: vec![], eof_end: false, capacity: None, ..cfg.clone() };
+            let bounds: Vec<usize> = crate::harness::slice_run(&spec, &input, &unb).ok_prefix().iter().filter(|(t, o)| !t.is_end() && *o > 0).map(|(_, o)| *o).collect();
+            for _ in 0..rng.range(1, 4) {
+                if !bounds.is_empty() && rng.chance(4, 5) {
+                    script.pauses.push(*rng.pick(&bounds));
+                } else if input.len() > 1 {
+                    script.pauses.push(rng.range(1, input.len() - 1));
+                }
+            }
+        }
+        ReadCase { spec, input, cfg, script, driver, class: gi.class }
     }
 
     fn exec(&self, rc: &ReadCase, st: &mut Stats) -> Result<ExecOk, Fail> {
@@ -80,6 +97,10 @@ impl Check for C03 {
         st.add("api_calls", tr.api_calls as u64);
         st.add("read_calls", tr.read_calls as u64);
         st.add("fault_short_reads", tr.rstats.short_reads);
+        st.add("fault_pauses_delivered", tr.rstats.pauses);
+        if tr.rstats.pauses > 0 && tr.evs.iter().filter(|e| matches!(e, crate::harness::Ev::None)).count() > 1 {
+            st.inc("probe_items_after_temporary_eof");
+        }
         if tr.panic().is_some() || tr.budget_exceeded || tr.step_cap_hit {
             st.inc("skipped_not_total");
             return Ok(ExecOk { nontrivial: false });
@@ -132,12 +153,12 @@ impl Check for C03 {
         c.shrink(true)
     }
     fn rule(&self) -> &'static str {
-        "One case = specification + bytes (valid incl. raw elements / byte-faulted / truncated / random / header soup) + tolerance subset + buffered-id subset + capacity + delivery schedule. The successful items up to the first error are flattened and replayed against the input by an independent decoder: id and header at the tiled position, value = documented decoding of the payload, reported offsets of non-End items = tiled position, End/Full offsets = master start (0 for implied ancestors). Non-trivial: at least two non-End items were checked. Distinct: FNV-1a fingerprint of bytes + configuration + schedule."
+        "One case = specification + bytes (valid incl. raw elements / byte-faulted / truncated / random / header soup) + tolerance subset + buffered-id subset + capacity + delivery schedule (with end-of-stream closing off, also temporary end-of-file reports at tag boundaries or anywhere, the caller polling on). The successful items up to the first error are flattened and replayed against the input by an independent decoder: id and header at the tiled position, value = documented decoding of the payload, reported offsets of non-End items = tiled position, End/Full offsets = master start (0 for implied ancestors). Non-trivial: at least two non-End items were checked. Distinct: FNV-1a fingerprint of bytes + configuration + schedule."
     }
     fn assumptions(&self) -> Vec<&'static str> {
         vec!["runs in which a call panics or does not terminate are skipped here (C05 reports them)", "children of Full items carry no offset of their own; they are checked for tiling and value only"]
     }
     fn expected_probes(&self) -> Vec<&'static str> {
-        vec!["probe_partial_refill", "probe_buffer_grew", "probe_full_items", "probe_raw_items"]
+        vec!["probe_partial_refill", "probe_buffer_grew", "probe_full_items", "probe_raw_items", "fault_pauses_delivered", "probe_items_after_temporary_eof"]
     }
 }
